@@ -307,6 +307,7 @@ class Interp:
         params = [x.arg for x in a.posonlyargs + a.args]
         env = dict(env0 or {})
         env["@owner"] = owner
+        env["@fname"] = getattr(fn, "name", "<lambda>")
         env["@module"] = owner.module if owner is not None else defaults_mod
         vals = list(args)
         if self_val is not None and params:
@@ -663,6 +664,8 @@ class Interp:
                     out += items if items is not None else [("fn", "star", [v])]
                 else:
                     out.append(self.expr(x, env, depth))
+            if isinstance(e, ast.Tuple) and out and all(x[0] == "c" and _hashable(x[1]) for x in out):
+                return ("c", tuple(x[1] for x in out))      # constant tuple (usable as a dict key)
             return ("list", out)
         if isinstance(e, ast.Dict):
             d = {}
